@@ -356,8 +356,7 @@ Print Assumptions C04_reachable_sinv.
    C14_encode_is_marshal): Marshal succeeds, the Encoder writes the same bytes, and Unmarshal -
    also with trailing bytes - returns exactly the segments, hence the same reads (T19 is a
    statement about [bm_data]).  The packed paths and the stream Decoder (C14
-   all_paths_same_segments) additionally need every byte in 0..255, which the invariant does not
-   carry: for them the composition is checked by the runs only. *)
+   all_paths_same_segments) additionally need every byte in 0..255: T33 / T34 below. *)
 Theorem C04_marshal_roundtrip_states : forall m objs pads, hinv m objs pads -> nsegs m <= 1073741823 ->
   exists b, Frame.marshal (bm_data m) = Frame.Ok b /\ Frame.encode true (bm_data m) = Frame.Ok b /\
             Frame.unmarshal b = Frame.Ok (bm_data m) /\ forall junk, Frame.unmarshal (b ++ junk) = Frame.Ok (bm_data m).
@@ -405,3 +404,46 @@ Theorem C04_new_bytes_read_back : forall m sid v nul m' p,
   (nul = true -> ptr_text (bm_data m') p = Ok (Some v)).
 Proof. exact new_bytes_read_back. Qed.
 Print Assumptions C04_new_bytes_read_back.
+
+(* ------------------------------------------------------------------ every serialisation path *)
+From CV Require Import Core.HeapBytes Core.HeapPaths.
+From CV Require Packed.Packed Frame.FramePacked Frame.FrameProofs Frame.FrameStream.
+
+(* [T33] the bytes invariant: in every state of every program of the sub-language (sub_prog
+   requires the argument of NewData / NewTextFromBytes to be bytes) every element of every segment
+   of the message under construction, and of the source message, is in 0..255 ([mb], [wb]:
+   Forall bytes_ok).  No premise besides the source being a message of bytes. *)
+Theorem C04_bytes_inv_sublang : forall a cfgd cfgs ncaps fuel src ops m,
+  create a (init_rlimit cfgd) = Ok m -> sub_prog ops = true -> msg_ok src ->
+  Forall (fun st => Forall bytes_ok (bm_data (w_dst (st_w st))) /\ Forall bytes_ok (w_src (st_w st)))
+         (bstates (mkEnv cfgd cfgs ncaps fuel) (mkBSt (mkW m src (init_rlimit cfgs)) []) ops).
+Proof. exact bytes_inv_sublang. Qed.
+Print Assumptions C04_bytes_inv_sublang.
+
+(* [T34] "same tree after Marshal/Unmarshal, packed, Encoder/Decoder" at the segment level, for
+   builder states: a state of the table invariant (T28: every reachable state) whose bytes are
+   bytes (T33: every reachable state), with at most 512 segments (the stream Decoder's limit) and a
+   frame within the Decoder's size limit [mx]: Marshal, the Encoder, MarshalPacked, the packed
+   Encoder succeed, and Unmarshal, UnmarshalPacked and the stream Decoders - plain over ANY
+   chunking of the bytes, packed over any reader behaviour [orc] - return exactly the segments of
+   the built message; every read (T16-T31 are statements about [bm_data]) is therefore the same
+   on the decoded message.  Composition with C14 / C13's all_paths_same_segments.  Not modelled:
+   Marshal's own loading of the segments from the arena (message.go). *)
+Theorem C04_all_paths_states : forall m objs pads mx,
+  hinv m objs pads -> Forall bytes_ok (bm_data m) -> nsegs m <= 512 -> FrameStream.max_ok mx ->
+  Frame.len (FrameProofs.frame (bm_data m)) <= Frame.eff_max mx ->
+  let segs := bm_data m in
+  exists b p pe,
+    Frame.marshal segs = Frame.Ok b /\ Frame.encode true segs = Frame.Ok b /\
+    FramePacked.marshal_packed segs = Frame.Ok p /\ Frame.encode_packed true segs = Frame.Ok pe /\
+    Frame.unmarshal b = Frame.Ok segs /\
+    FramePacked.unmarshal_packed p = Frame.Ok segs /\
+    (forall cs hc bc ru, concat cs = b ->
+       exists st' log, Frame.decode1 (Frame.mkD (Frame.mkReader cs Packed.EOF) hc bc ru mx) = (st', Frame.DMsg segs, log)) /\
+    (forall orc hc bc ru,
+       exists st' log, FramePacked.pdecode1 (Frame.mkD (FramePacked.p_init orc pe) hc bc ru mx) = (st', Frame.DMsg segs, log)) /\
+    FramePacked.unmarshal_packed pe = Frame.Ok segs /\
+    (forall orc hc bc ru,
+       exists st' log, FramePacked.pdecode1 (Frame.mkD (FramePacked.p_init orc p) hc bc ru mx) = (st', Frame.DMsg segs, log)).
+Proof. exact all_paths_states. Qed.
+Print Assumptions C04_all_paths_states.
